@@ -163,6 +163,15 @@ def task(  # noqa: PLR0913
                 produces=produces,
             )
 
+        # Markers attached to a wrapper of the function, for example above a decorator
+        # using ``functools.wraps``, would be lost together with the wrapper.
+        outer_meta = getattr(func, "pytask_meta", None)
+        if outer_meta is not None and outer_meta is not unwrapped.pytask_meta:
+            unwrapped.pytask_meta.markers = [
+                *outer_meta.markers,
+                *unwrapped.pytask_meta.markers,
+            ]
+
         if coiled_kwargs and hasattr(unwrapped, "pytask_meta"):
             unwrapped.pytask_meta.attributes["coiled_kwargs"] = coiled_kwargs
 
